@@ -238,7 +238,7 @@ def check(A):
             'src/engineio/static_files.py', key='static-ctype-table')
     ok = any(match("content_types.get(_e, 'application/octet-stream')", n) is not None
              for n in ast.walk(gs.node) if isinstance(n, ast.Call))
-    guard = any(isinstance(n, ast.If) and match("'content_type' not in f", n.test) is not None
+    guard = any(isinstance(n, ast.If) and match("'content_type' not in _f", n.test) is not None
                 for n in ast.walk(gs.node))
     A.check(ok and guard, 'C20.content-type', "the content type is the mapping's, else by "
             'extension, else application/octet-stream', A.site(gs), key='static-ctype-default')
